@@ -1423,6 +1423,37 @@ pub fn validate_plan(statement: &KmlStatement) -> Result<(), KipError> {
         }
     }
 
+    // A handle the plan itself creates has the kind of the clause that creates
+    // it, and UPDATE reaches that kind's mutable state only.
+    for clause in &statement.clauses {
+        let MutationClause::Update(update) = clause else {
+            continue;
+        };
+        let ElementRef::Handle(target) = &update.target else {
+            continue;
+        };
+        let plan_kinds: Vec<BoundKind> = statement
+            .clauses
+            .iter()
+            .filter(|other| other.handle() == Some(target.as_str()))
+            .filter_map(|other| match other {
+                MutationClause::CreateConcept(_) | MutationClause::UpsertConcept(_) => {
+                    Some(BoundKind::Concept)
+                }
+                MutationClause::EnsureProposition(_) => Some(BoundKind::Proposition),
+                MutationClause::CreateEvidence(_) => Some(BoundKind::Evidence),
+                MutationClause::CreateAssertion(_) => Some(BoundKind::Assertion),
+                MutationClause::CreateActivity(_) => Some(BoundKind::Activity),
+                _ => None,
+            })
+            .collect();
+        if !plan_kinds.is_empty()
+            && let Err(ctx) = guard_update_as(update, &plan_kinds)
+        {
+            return Err(KipError::invalid_syntax(ctx));
+        }
+    }
+
     Ok(())
 }
 
